@@ -27,6 +27,21 @@
 (*   one epoch and epochs grow from connection to connection, a follow-up carries   *)
 (*   its parent's sequence number and parent and child IDs share the epoch.         *)
 (*                                                                                 *)
+(* Why placing hidden steps "between the neighbouring points" is sound.  Stamps come *)
+(* from one atomic counter, so stamp order is the real order of the stamping         *)
+(* instants.  An L point is stamped inside its lock section, after the try-send /     *)
+(* record; sections are serialized by the mutex, so L order = lock order = channel    *)
+(* send order.  The writer's receive R lies between its points A (before) and B       *)
+(* (after); B is always a flushReadyDrops hook, i.e. needs the lock.  For an emit      *)
+(* section with send S and stamp T: if R < S then A < R < S < T, so R may be placed     *)
+(* before T; if S < R then either T < R already, or R falls inside the section and B,   *)
+(* which needs the lock, comes after T: R may be placed after T.  Either way the        *)
+(* outcome (queued / dropped) the hook reports is                                       *)
+(* reproduced by some placement; TLC explores all of them.  Flag stores by the          *)
+(* connection goroutine are hidden steps in their own window; a flag read that falls    *)
+(* into the same gap between two points as a store sees both values (acc/accL record    *)
+(* the state before and after every step).                                             *)
+(*                                                                                 *)
 (* Permissive by construction (never stricter than the statement):                  *)
 (*   - timestamps are not checked; a rejected Emit is accepted whenever SOME reason *)
 (*     for rejection could have held at SOME moment of the call;                    *)
